@@ -166,6 +166,16 @@ def run_case(case):
         classes.add("storage_with_idle_power")
     slots = foot_slots(h.spec)
     sysm = h.system
+    if case["idx"] % 2 == 0:
+        # a what-if that has been created, toggled and reset must leave a model that still responds to its drivers
+        from .. import sim
+        try:
+            ch = sim.rand_change_list(rnd, h.spec, h.objs, no_hourly=True)
+            m_ = E.ModelingUpdate(sim.to_library_changes(ch, h.objs), sim.pick_date(rnd, h.objs, h.spec, rnd.choice(["first", "interior"])))
+            m_.set_updated_values(); m_.reset_values()
+            C["after_a_finished_simulation"] = 1
+        except Exception:
+            pass
     base = read(h.objs, slots)
     V = []
     if observe.ceil_boundary_ambiguous(sysm):
